@@ -193,15 +193,48 @@ def call_kind(node):
     return None
 
 
-def analyse(func, cname):
-    """sites, anchors and the line -> site map of one function"""
+RET_ACTIONS = ("ARetFalse", "ARetTrue", "ARetNone")
+
+
+def return_action(st):
+    """`return <constant>` -> the action a handler has that falls through to it"""
+    if not isinstance(st, ast.Return):
+        return None
+    v = st.value
+    if v is None or (isinstance(v, ast.Constant) and v.value is None):
+        return "ARetNone"
+    if isinstance(v, ast.Constant) and isinstance(v.value, bool):
+        return "ARetTrue" if v.value else "ARetFalse"
+    return None
+
+
+def analyse(func, cname, clsnode=None, skeleton=()):
+    """sites, anchors and the line -> site map of one function.
+
+    Tolerant of property-preserving reshaping:
+      * a call `self._helper(...)` of a private method of the same class that is not itself part of the skeleton is read as
+        if the helper's body stood at the call (two levels deep); its try statements are numbered with the caller's, and what
+        its except clauses do is translated to the caller: `while self._helper(): pass` — returning a false constant is the
+        loop's `break`, a true one its `continue`; anywhere else returning just goes on in the caller;
+      * an except clause that falls through to a `return <constant>` right behind its try statement (or to the end of the
+        function) is the same as one that returns that constant itself."""
     sites, anchors, counts = [], [], {}
     lines = {}
+    helper_lines = []
+    cur_lines = [lines]
+    helpers = {}
+    if clsnode is not None:
+        for n in clsnode.body:
+            if isinstance(n, (ast.FunctionDef,)) and n.name.startswith("_") and not n.name.startswith("__") \
+                    and n.name not in skeleton and n.name not in ATTR_KINDS and n is not func \
+                    and not any(isinstance(x, (ast.FunctionDef, ast.AsyncFunctionDef, ast.ClassDef)) for x in ast.walk(n) if x is not n):
+                helpers[n.name] = n      # (a helper with nested definitions stays an opaque call, as any other call)
+    inlining = []
 
     def mark(node, cur):
         if hasattr(node, "lineno"):
             for ln in range(node.lineno, (getattr(node, "end_lineno", None) or node.lineno) + 1):
-                lines[ln] = cur
+                cur_lines[-1][ln] = cur
 
     hstack = []      # (site ordinal, names holding the caught exception) of the enclosing except clauses
     params = {a.arg for a in func.args.args if "exc" in a.arg}
@@ -223,7 +256,27 @@ def analyse(func, cname):
                 return True
         return False
 
-    def expr(node, cur):
+    def helper_of(n):
+        if isinstance(n, ast.Call) and isinstance(n.func, ast.Attribute) and isinstance(n.func.value, ast.Name) \
+                and n.func.value.id == "self" and n.func.attr in helpers and n.func.attr not in inlining and len(inlining) < 2:
+            return helpers[n.func.attr]
+        return None
+
+    def inline(h, cur, mode):
+        need(not h.decorator_list or all(isinstance(d, ast.Name) and d.id in ("staticmethod", "classmethod") for d in h.decorator_list),
+             "helper %s is decorated" % h.name)
+        first = min([h.lineno] + [d.lineno for d in h.decorator_list])
+        hl = {}
+        helper_lines.append({"name": h.name, "firstlineno": first, "lines": hl})
+        cur_lines.append(hl)
+        inlining.append(h.name)
+        try:
+            stmts(h.body, cur, top=True, retmap=mode)
+        finally:
+            inlining.pop()
+            cur_lines.pop()
+
+    def expr(node, cur, mode="stmt"):
         """anchored calls inside an expression / simple statement, in source order"""
         if hstack and isinstance(node, ast.stmt):
             names = set(params)
@@ -238,16 +291,33 @@ def analyse(func, cname):
             k = call_kind(n)
             if k:
                 found.append((n.lineno, n.col_offset, k, n))
+            elif helper_of(n) is not None:
+                found.append((n.lineno, n.col_offset, None, n))
         for ln, col, k, n in sorted(found, key=lambda t: (t[0], t[1])):
+            if k is None:
+                inline(helper_of(n), cur, mode)
+                continue
             idx = counts.get(k, 0)
             counts[k] = idx + 1
             anchors.append({"fn": cname, "kind": k, "idx": idx, "site": cur, "line": ln, "handler": hstack[-1][0] if hstack else None})
 
-    def stmts(body, cur):
-        for st in body:
-            stmt(st, cur)
+    def translate(act, fall, retmap):
+        if act == "ASwallow" and fall:
+            act = fall
+        if retmap == "while" and act in RET_ACTIONS:
+            return "AContinue" if act == "ARetTrue" else "ABreak"
+        if retmap == "stmt" and act in RET_ACTIONS:
+            return "ASwallow"
+        return act
 
-    def stmt(st, cur):
+    def stmts(body, cur, top=False, retmap=None):
+        for i, st in enumerate(body):
+            fall = None
+            if top and isinstance(st, ast.Try):
+                fall = "ARetNone" if i == len(body) - 1 else return_action(body[i + 1])
+            stmt(st, cur, fall, retmap)
+
+    def stmt(st, cur, fall=None, retmap=None):
         mark(st, cur)
         if isinstance(st, (ast.FunctionDef, ast.AsyncFunctionDef, ast.ClassDef)):
             need(not any(call_kind(n) for n in ast.walk(st)) and not contains(st, (ast.Try, ast.With)),
@@ -259,17 +329,17 @@ def analyse(func, cname):
             site = {"fn": cname, "ord": ordn, "handlers": [], "finally": bool(st.finalbody), "outer": cur,
                     "kind": "try", "line": st.lineno}
             sites.append(site)
-            stmts(st.body, ordn)
+            stmts(st.body, ordn, retmap=retmap)
             for h in st.handlers:
                 mark(h, cur)
                 gh = guarded_head(h)
                 if gh is not None:
                     var, classes, act = gh
                     check_recv_var(func, st, var)
-                    site["handlers"].append((classes, "GAtRecv", act))
-                    site["handlers"].append((class_tuple(h.type), "GAlways", handler_action(h, func.name, skip_head=True)))
+                    site["handlers"].append((classes, "GAtRecv", translate(act, None, retmap)))
+                    site["handlers"].append((class_tuple(h.type), "GAlways", translate(handler_action(h, func.name, skip_head=True), fall, retmap)))
                 else:
-                    site["handlers"].append((class_tuple(h.type), "GAlways", handler_action(h, func.name)))
+                    site["handlers"].append((class_tuple(h.type), "GAlways", translate(handler_action(h, func.name), fall, retmap)))
                 names = {h.name} if h.name else set()
                 for x in ast.walk(h):      # ex_t, ex_v, ex_tb = sys.exc_info()  /  xt, xv, tb = sys.exc_info()
                     if isinstance(x, ast.Assign) and isinstance(x.value, ast.Call) and isinstance(x.value.func, ast.Attribute) \
@@ -277,10 +347,10 @@ def analyse(func, cname):
                             and isinstance(x.targets[0].elts[1], ast.Name):
                         names.add(x.targets[0].elts[1].id)
                 hstack.append((ordn, names))
-                stmts(h.body, cur)
+                stmts(h.body, cur, retmap=retmap)
                 hstack.pop()
-            stmts(st.orelse, cur)
-            stmts(st.finalbody, cur)
+            stmts(st.orelse, cur, retmap=retmap)
+            stmts(st.finalbody, cur, retmap=retmap)
             return
         if isinstance(st, (ast.With, ast.AsyncWith)):
             sup = [it for it in st.items if is_suppress(it)]
@@ -291,28 +361,38 @@ def analyse(func, cname):
                 ordn = len(sites)
                 sites.append({"fn": cname, "ord": ordn, "handlers": [([class_name(a) for a in args], "GAlways", "ASwallow")],
                               "finally": False, "outer": cur, "kind": "suppress", "line": st.lineno})
-                stmts(st.body, ordn)
+                stmts(st.body, ordn, retmap=retmap)
                 return
             for it in st.items:
                 expr(it.context_expr, cur)
-            stmts(st.body, cur)
+            stmts(st.body, cur, retmap=retmap)
             return
-        if isinstance(st, (ast.If, ast.While)):
+        if isinstance(st, ast.While):
+            # `while self._helper(): pass` — the helper's result decides about leaving the loop
+            t = st.test
+            if helper_of(t) is not None and all(isinstance(b, ast.Pass) for b in st.body) and not st.orelse:
+                expr(t, cur, mode="while")
+                return
             expr(st.test, cur)
-            stmts(st.body, cur)
-            stmts(st.orelse, cur)
+            stmts(st.body, cur, retmap=retmap)
+            stmts(st.orelse, cur, retmap=retmap)
+            return
+        if isinstance(st, ast.If):
+            expr(st.test, cur)
+            stmts(st.body, cur, retmap=retmap)
+            stmts(st.orelse, cur, retmap=retmap)
             return
         if isinstance(st, (ast.For, ast.AsyncFor)):
             expr(st.iter, cur)
-            stmts(st.body, cur)
-            stmts(st.orelse, cur)
+            stmts(st.body, cur, retmap=retmap)
+            stmts(st.orelse, cur, retmap=retmap)
             return
         if type(st).__name__ in ("Match", "TryStar"):
             raise GenError("unsupported statement %s in %s" % (type(st).__name__, func.name))
         expr(st, cur)
 
-    stmts(func.body, None)
-    return sites, anchors, lines
+    stmts(func.body, None, top=True)
+    return sites, anchors, lines, helper_lines
 
 
 def reply_rule(func):
@@ -425,7 +505,8 @@ def gen_handlers(tree):
             mods[rel] = parse(tree, rel)[0]
         func = find_func(mods[rel], fname, cls)
         need(not func.decorator_list, "%s.%s is decorated" % (cls, fname))
-        sites, anchors, lines = analyse(func, cname)
+        clsnode = find_class(mods[rel], cls)
+        sites, anchors, lines, helper_lines = analyse(func, cname, clsnode, {f[2] for f in FUNCS if f[1] == cls})
         counts = {}
         for a in anchors:
             counts[a["kind"]] = counts.get(a["kind"], 0) + 1
@@ -439,6 +520,8 @@ def gen_handlers(tree):
         all_anchors += anchors
         info_funcs[cname] = {"file": rel.split("/")[-1], "name": fname, "firstlineno": func.lineno,
                              "lines": {str(k): v for k, v in sorted(lines.items())},
+                             "helpers": [{"name": h["name"], "firstlineno": h["firstlineno"],
+                                          "lines": {str(k): v for k, v in sorted(h["lines"].items())}} for h in helper_lines],
                              "sites": [{"ord": s["ord"], "kind": s["kind"], "line": s["line"], "outer": s["outer"], "finally": s["finally"],
                                         "handlers": [[c, a, g] for c, g, a in s["handlers"]]} for s in sites],
                              "anchors": [{"kind": a["kind"], "idx": a["idx"], "site": a["site"], "line": a["line"], "handler": a["handler"]} for a in anchors]}
